@@ -14,10 +14,13 @@ The arrays are carved out of a larger Python bytearray (ffi.from_buffer), so
 after *every* step the whole image -- object bytes and canaries -- is read
 straight from the bytearray (no cffi involved) and compared with the model.
 
-Three passes per configuration (alphabets nest: narrow < wide):
-    wide   : all histories of length <= 2 over the wide alphabet (no merging)
-    narrow : all histories of length <= 3 over the narrow alphabet (no merging)
-    deep   : (thorough) narrow alphabet to depth 5, merging by key() beyond 3
+Passes (alphabets nest: core < narrow < wide; sizes on int[4]: 31 / 50 / 227):
+    quick    wide  : all histories of length <= 2 with at most one op outside the core alphabet (no merging)
+             core  : core alphabet to depth 3, merging by key() beyond depth 1
+    thorough wide2 : all histories of length <= 2 over the wide alphabet (no merging)
+             wide3 : length <= 3, at most one op outside the core alphabet, the six shapes of DESIGN.md (no merging)
+             narrow: all histories of length <= 3 over the narrow alphabet (no merging)
+             deep  : core alphabet to depth 5, merging by key() beyond depth 2
 """
 import struct
 
@@ -31,13 +34,15 @@ META = dict(
     technique="explicit-state search over all operation histories (index, slice, slice-assign, pointer arithmetic, "
               "addressof/offsetof, derived views) of real cdata objects in lock-step with a byte model, canaries "
               "around the storage",
-    text="All histories up to depth 2 over a ~250-operation alphabet and up to depth 3 over a ~50-operation alphabet "
-         "(thorough: depth 5 with state merging beyond depth 3), from 10 array/pointer shapes (int[4], char[5], "
-         "struct[3], long long[] n=3, owned and from_buffer-backed, owning pointers, a pointer into the middle of an "
-         "array) x both FFI front ends.  Indices straddle every comparison of _cdata_get_indexed_ptr / "
-         "_cdata_getslicearg (-1, 0, 1, n-1, n, n+1, 2**63-1, 2**63, None, step).  After each step: acceptance "
-         "(IndexError exactly when the statement says), value/address/length of the result, and the complete memory "
-         "image including canaries, read from the backing bytearray, against the model.",
+    text="From 10 array/pointer shapes (int[4], char[5], struct[3], long long[] n=3, owned and from_buffer-backed, "
+         "owning pointers, a pointer into the middle of an array) x both FFI front ends: quick = every history of "
+         "length <= 2 with at most one operation outside a 31-operation core alphabet (227-operation wide alphabet, "
+         "no merging) and the core alphabet to depth 3 (merging beyond depth 1); thorough = all pairs over the wide "
+         "alphabet, all triples over a 50-operation alphabet and all triples with one wide operation (no merging), "
+         "core alphabet to depth 5 with merging beyond depth 2.  Indices straddle every comparison of "
+         "_cdata_get_indexed_ptr / _cdata_getslicearg (-1, 0, 1, n-1, n, n+1, 2**63-1, 2**63, None, step).  After "
+         "each step: acceptance (IndexError exactly when the statement says), value/address/length of the result, "
+         "and the complete memory image including canaries, read from the backing bytearray, against the model.",
     note="the byte model is the oracle; indices whose byte offset does not fit a Py_ssize_t are outside C's pointer "
          "arithmetic and are executed but not compared (counted); plain pointers are only dereferenced inside the "
          "model's bytes")
@@ -701,7 +706,7 @@ class MemJournal(object):
 
 def _work(item):
     """Runs in a pool worker: explore one (cfg, prefix) sub-tree with hist.explore."""
-    kind, cfg, prefix, depth, d0 = item
+    pname, cfg, prefix, depth, d0 = item
     _COUNTS.clear()
     _CUR[0] = None
     hist._journal = MemJournal(hist._journal_path(item))
@@ -714,19 +719,22 @@ def _work(item):
     return st, dict(_COUNTS)
 
 
-def run_contained(cfgs, depth, d0, split):
-    """hist.run_parallel, except that (a) the shallow part (histories no longer than `split`) is
-    also executed inside pool workers, so a crash at depth 1 is contained and reported, and (b) a
-    violation on one shallow history does not stop the exploration below the *other* prefixes."""
-    total = hist.Stats()
-    counts = {}
-    crashes = []
-    samples = []
-    sd = min(split, depth)
+def run_contained(jobs, split):
+    """hist.run_parallel for several passes at once.  jobs = [(pass name, cfg, depth, d0)].  Differences:
+    (a) the shallow part (histories no longer than `split`) is also executed inside pool workers, so a crash
+    at depth 1 is contained and reported; (b) a violation on one shallow history does not stop the exploration
+    below the other prefixes; (c) the passes share the two pool start-ups (shallow stage, deep stage).
+    Returns {pass name: (Stats, class counts, crashes, samples)}."""
+    res = {}
+    for pname, cfg, depth, d0 in jobs:
+        res.setdefault(pname, (hist.Stats(), {}, [], []))
 
     def drain(items):
         done = {}
-        for item, r in pool.pmap(_work, [[it] for it in items]):
+        # a few blocks per worker (interleaved): one pipe round trip per block, not per sub-tree
+        nb = max(1, min(len(items), pool.NPROC * 4))
+        for item, r in pool.pmap(_work, [items[k::nb] for k in range(nb)]):
+            total, counts, crashes, samples = res[item[0]]
             if isinstance(r, pool.WorkerError):
                 raise InfraError(r.tb)
             if isinstance(r, pool.Crash):
@@ -738,21 +746,22 @@ def run_contained(cfgs, depth, d0, split):
                 samples.append((list(item[1]), st.samples[-1]))
             for k, v in cnt.items():
                 counts[k] = counts.get(k, 0) + v
-            done[item[1]] = set(h for h, info in st.violations)
+            done.setdefault((item[0], item[1]), set()).update(h for h, info in st.violations)
         return done
 
-    done = drain([("shallow", cfg, (), sd, min(d0, sd)) for cfg in cfgs])
-    if depth > sd:
-        items = []
-        for cfg in cfgs:
-            if cfg in done:
-                # replaying these prefixes in the driver is safe: the same executions just ran in a worker
-                for p in hist.prefixes(Sys, cfg, sd):
-                    if not any(p[:k] in done[cfg] for k in range(1, len(p) + 1)):
-                        items.append(("deep", cfg, p, depth, d0))
-        _CUR[0] = None
+    done = drain([(pname, cfg, (), min(split, depth), min(d0, split, depth)) for pname, cfg, depth, d0 in jobs])
+    items = []
+    for pname, cfg, depth, d0 in jobs:
+        sd = min(split, depth)
+        if depth > sd and (pname, cfg) in done:
+            # replaying these prefixes in the driver is safe: the same executions just ran in a worker
+            for p in hist.prefixes(Sys, cfg, sd):
+                if not any(p[:k] in done[(pname, cfg)] for k in range(1, len(p) + 1)):
+                    items.append((pname, cfg, p, depth, d0))
+    _flush()
+    if items:
         drain(items)
-    return total, counts, crashes, samples
+    return res
 
 
 ANY = 99
@@ -761,7 +770,7 @@ ANY = 99
 def _passes(ctx):
     # (name, alphabet level, max ops outside the core alphabet per history, depth, d0)
     if ctx.quick:
-        return [("wide", 2, 1, 2, 2), ("core", 0, 0, 3, 3)]
+        return [("wide", 2, 1, 2, 2), ("core", 0, 0, 3, 1)]
     return [("wide2", 2, ANY, 2, 2), ("wide3", 2, 1, 3, 3), ("narrow", 1, ANY, 3, 3), ("deep", 0, 0, 5, 2)]
 
 
@@ -771,10 +780,17 @@ def run(ctx):
     cov_pass = {}
     tot_states = tot_trans = 0
     maxd = 0
+    jobs = []
+    ncfg = {}
     for pname, lvl, budget, depth, d0 in _passes(ctx):
         shapes = SHAPES[:6] if pname == "wide3" else SHAPES      # wide3: the six shapes of DESIGN.md only (cost)
-        cfgs = [(lvl, budget, fk) + sh for fk in FFIKINDS for sh in shapes]
-        st, counts, crashes, samples = run_contained(cfgs, depth, d0, split=1)
+        for fk in FFIKINDS:
+            for sh in shapes:
+                jobs.append((pname, (lvl, budget, fk) + sh, depth, d0))
+        ncfg[pname] = len(FFIKINDS) * len(shapes)
+    res = run_contained(jobs, split=1)
+    for pname, lvl, budget, depth, d0 in _passes(ctx):
+        st, counts, crashes, samples = res[pname]
         ctx.log("pass %s: depth=%d d0=%d states=%d transitions=%d merged=%d violations=%d crashes=%d" % (
             pname, depth, d0, st.states, st.transitions, st.merged, len(st.violations), len(crashes)))
         for k, v in sorted(counts.items()):
@@ -790,7 +806,7 @@ def run(ctx):
         cov_pass[pname] = {"alphabet": ["core", "narrow", "wide"][lvl], "max_depth": depth, "unmerged_depth_d0": d0,
                            "max_noncore_ops_per_history": "unbounded" if budget == ANY else budget,
                            "states": st.states, "transitions": st.transitions, "merged": st.merged,
-                           "replayed_op_applications": st.replayed, "configs": len(cfgs),
+                           "replayed_op_applications": st.replayed, "configs": ncfg[pname],
                            "by_depth": {str(k): v for k, v in sorted(st.by_depth.items())},
                            "ops": dict(sorted(st.op_hist.items()))}
         tot_states += st.states
